@@ -9,17 +9,22 @@ package leveldb
 // final reads go through the real DB.get / table cache / table reader.
 
 import (
+	"errors"
+
 	"github.com/syndtr/goleveldb/leveldb/journal"
 	"github.com/syndtr/goleveldb/leveldb/memdb"
 	"github.com/syndtr/goleveldb/leveldb/opt"
 	"github.com/syndtr/goleveldb/leveldb/storage"
 )
 
+var errZZDied = errors.New("zz: process died")
+
 type zzCrashStor struct {
 	storage.Storage
 	ops     int  // storage mutations so far
 	crashAt int  // the mutation with this number, and every later one, fails (-1: never)
 	dead    bool
+	die     bool // the crash is the death of the process: the failing call never returns (panic with errZZDied)
 	open    []interface{ Close() error }
 	// durability monitor: files with bytes written since their last Sync
 	dirty map[storage.FileDesc]bool
@@ -34,10 +39,16 @@ func (s *zzCrashStor) markDirty(fd storage.FileDesc, d bool) {
 
 func (s *zzCrashStor) tick() error {
 	if s.dead {
+		if s.die {
+			panic(errZZDied)
+		}
 		return errZZFault
 	}
 	if s.ops == s.crashAt {
 		s.dead = true
+		if s.die {
+			panic(errZZDied)
+		}
 		return errZZFault
 	}
 	s.ops++
@@ -60,6 +71,14 @@ func (w *zzCrashWriter) Write(p []byte) (int, error) {
 func (w *zzCrashWriter) Sync() error {
 	if err := w.s.tick(); err != nil {
 		return err
+	}
+	if w.fd.Type == storage.TypeManifest {
+		// a manifest record becomes durable here: the tables it may name must be durable already
+		for f, d := range w.s.dirty {
+			if f.Type == storage.TypeTable {
+				vpAssert(!d, "tables-synced-before-the-manifest-record")
+			}
+		}
 	}
 	w.s.markDirty(w.fd, false)
 	return w.Writer.Sync()
@@ -268,4 +287,94 @@ func ZZ_C18_readonly() {
 		vpAssert(err1 == nil && len(got1) == 1 && got1[0] == v1[0], "readonly-serves-older-journal-put")
 	}
 	vpAssert(cs.ops == 0, "reads-mutate-nothing")
+}
+
+// C04-memflush: a crash at ANY storage mutation while a running DB flushes its
+// frozen write buffer (the real DB.memCompaction: table write, manifest commit,
+// frozen-journal removal) loses nothing: recovery from the same storage serves
+// every acknowledged record of both journals. The crash is the death of the
+// process (the failing storage call never returns).
+func ZZ_C04_memflush() {
+	mem := storage.NewMemStorage()
+	cs := &zzCrashStor{Storage: mem, crashAt: -1, die: true}
+	s := zzSession(cs, 64<<20)
+	s.tops = newTableOps(s)
+	vpAssert(s.create() == nil, "setup-create")
+	s.markFileNum(5)
+	rec := &sessionRecord{}
+	rec.setJournalNum(3)
+	rec.setSeqNum(0)
+	vpAssert(s.commit(rec, false) == nil, "setup-commit")
+	// acknowledged writes: journal 3 (frozen with its buffer) and journal 4 (current)
+	zzPutJournal(mem, 3, 1, [][2]string{{"a", "1"}, {"b", "2"}, {"d", "4"}})
+	zzPutJournal(mem, 4, 4, [][2]string{{"c", "3"}, {"a", "9"}, {"b", ""}})
+	db := &DB{
+		s:               s,
+		seq:             6,
+		frozenSeq:       3,
+		journalFd:       storage.FileDesc{Type: storage.TypeJournal, Num: 4},
+		frozenJournalFd: storage.FileDesc{Type: storage.TypeJournal, Num: 3},
+		memPool:         make(chan *memdb.DB, 1),
+		tcompPauseC:     make(chan chan<- struct{}),
+		compErrC:        make(chan error),
+		compPerErrC:     make(chan error),
+		compErrSetC:     make(chan error),
+		writeLockC:      make(chan struct{}, 1),
+		closeC:          make(chan struct{}),
+	}
+	go db.compactionError()
+	fm := &memDB{db: db, DB: memdb.New(s.icmp, 256), ref: 1}
+	fm.Put(makeInternalKey(nil, []byte("a"), 1, keyTypeVal), []byte("1"))
+	fm.Put(makeInternalKey(nil, []byte("b"), 2, keyTypeVal), []byte("2"))
+	fm.Put(makeInternalKey(nil, []byte("d"), 3, keyTypeVal), []byte("4"))
+	cm := &memDB{db: db, DB: memdb.New(s.icmp, 256), ref: 1}
+	cm.Put(makeInternalKey(nil, []byte("c"), 4, keyTypeVal), []byte("3"))
+	cm.Put(makeInternalKey(nil, []byte("a"), 5, keyTypeVal), []byte("9"))
+	cm.Put(makeInternalKey(nil, []byte("b"), 6, keyTypeDel), nil)
+	db.frozenMem, db.mem = fm, cm
+	// the table-compaction goroutine's side of the pause handshake
+	go func() {
+		select {
+		case ch := <-db.tcompPauseC:
+			select {
+			case ch <- struct{}{}:
+			case <-db.closeC:
+			}
+		case <-db.closeC:
+		}
+	}()
+	cs.ops = 0
+	cs.crashAt = vpChoose(zzCrashPoints+1) - 1
+	func() {
+		defer func() {
+			if x := recover(); x != nil {
+				vpAssert(x == errZZDied, "only-the-crash-unwinds")
+			}
+		}()
+		db.memCompaction()
+	}()
+	if !cs.dead {
+		vpAssert(cs.ops <= zzCrashPoints, "crash-point-bound-covers-the-whole-flush")
+		vpAssert(db.frozenMem == nil, "flush-drops-the-frozen-buffer")
+		fds, _ := mem.List(storage.TypeJournal)
+		vpAssert(len(fds) == 1 && fds[0].Num == 4, "flush-removes-exactly-the-frozen-journal")
+	}
+	close(db.closeC)
+	vpJoin()
+	cs.reap()
+	db2, err2 := zzOpenDB(&zzCrashStor{Storage: mem, crashAt: -1})
+	vpAssert(err2 == nil, "reopen-after-crash-succeeds")
+	if err2 != nil {
+		return
+	}
+	want := map[string]string{"a": "9", "b": "", "c": "3", "d": "4"}
+	for _, k := range []string{"a", "b", "c", "d"} {
+		v, err := db2.get(nil, nil, []byte(k), db2.seq, nil)
+		if want[k] == "" {
+			vpAssert(err == ErrNotFound, "deleted-key-stays-deleted")
+		} else {
+			vpAssert(err == nil && string(v) == want[k], "acknowledged-write-survives-crashed-flush")
+		}
+	}
+	vpAssert(db2.seq >= 6, "sequence-not-behind-the-recovered-records")
 }
